@@ -497,6 +497,22 @@ def run(ctx):
                 'correspondence': 'Model/Handlers.v vs esme.py/correlator.py', 'input_term': inp[:2500], 'implementation_result': exp[:800]}, found_input=False)
         ctx.extra['correspondence_handlers_cases'] = len(cases)
         ctx.extra['correspondence_handlers_disagreements'] = len(bad)
+    # ---- a sequence number that comes round again (new process on a persisted correlator, or a generator with a short period) after a
+    #      segmented message with that number was answered: the new message's outcome is its own
+    for variant in ('answered', 'rejected', 'timed_out'):
+        hist = [('put', 1, 2, 1, (7, 1, 2)), ('put', 2, 3, 1, (7, 2, 2)), ('resp', 3, 0x80000004, 2, 0, 501), ('resp', 4, 0x80000004, 3, 0, 502),
+                ('put', 5, 2, 2, (0, 0, 0))]
+        hist.append({'answered': ('resp', 6, 0x80000004, 2, 0, 503), 'rejected': ('resp', 6, 0x80000004, 2, 0x58, 0), 'timed_out': ('expire', 6, 2)}[variant])
+        out, _e = asyncio.run(run_real(hist))
+        obs = observe(out)
+        ctx.traces += 1
+        ctx.case(('sequence_number_reuse', variant), nontrivial=True)
+        last = [x for x in obs[-1] if x[0] == 4 or (x[0] == 1 and x[2] != 0)]
+        logs_seen = [x[1] if x[0] == 4 else x[2] for x in last]
+        if logs_seen != [2]:
+            ctx.violation(f'a plain message sent under a sequence number that an earlier, fully answered segment of another message had used ({variant}): '
+                          f'its outcome is attributed to message(s) {logs_seen} instead of [2] (hook calls {obs[-1]})',
+                          {'function': 'history', 'history': [list(e) for e in hist]})
     # ---- more than 255 reference-taking messages in flight at once
     for n_between in (254, 255):
         obs = ref_collision_session(n_between)
